@@ -12,8 +12,9 @@ import (
 type Answer struct {
 	Status int
 	Body   string
-	Drop   bool          // close the connection without answering
-	Hold   chan struct{} // when non-nil the answer is delayed until the channel is closed
+	Drop   bool              // close the connection without answering
+	Hold   chan struct{}     // when non-nil the answer is delayed until the channel is closed
+	Header map[string]string // extra response headers (e.g. Retry-After)
 }
 
 // AuthCall is one back-channel call the proxy made to the (fake) authenticator.
@@ -168,6 +169,9 @@ func (f *FakeAuth) serve(w http.ResponseWriter, r *http.Request) {
 	}
 	if strings.HasPrefix(strings.TrimSpace(a.Body), "{") {
 		w.Header().Set("Content-Type", "application/json")
+	}
+	for hk, hv := range a.Header {
+		w.Header().Set(hk, hv)
 	}
 	w.WriteHeader(a.Status)
 	w.Write([]byte(a.Body))
